@@ -12,7 +12,7 @@ from .. import sp
 ID = "C03"
 META = {
     "technique": "runtime monitoring: tiling + true-line-number postcondition on Splitter.split / parse_string over bounded-exhaustive token sequences, garbage, corruptions and dedicated newline families",
-    "level_text": "Every explored text (all token sequences up to the bound, random garbage, grammar derivations and their corruptions, backslash-newline/CRLF/same-line families) is split by the real code; a searched placement of the raws must tile the text with whitespace-only gaps and every start_line must equal the number of newlines before the raw; field lines are checked against the recogniser's positions. An oddws kind inserts non-ASCII and control white space next to existing white space and commas. All sequences to length 6 (thorough 7) over a second alphabet with the parenthesis delimiters `@a ( ) { } , = newline x blank` are enumerated too, and parenthesised blocks are injected into grammar documents.",
+    "level_text": "Every explored text (all token sequences up to the bound, random garbage, grammar derivations and their corruptions, backslash-newline/CRLF/same-line families) is split by the real code; a searched placement of the raws must tile the text with whitespace-only gaps and every start_line must equal the number of newlines before the raw; field lines are checked against the recogniser's positions. An oddws kind inserts non-ASCII and control white space next to existing white space and commas. All sequences to length 6 (thorough 7) over a second alphabet with the parenthesis delimiters `@a ( ) { } , = newline x blank` are enumerated too, and parenthesised blocks are injected into grammar documents. Half of the plain grammar documents carry @string definitions and fields referring to them, bare and in concatenations.",
     "level_note": "line = number of U+000A before the offset; field lines only for recogniser-accepted documents",
 }
 RULE = ("cases = all token sequences <= L over the splitter alphabet (incl. backslash, newline, CRLF token), random garbage, "
@@ -74,6 +74,11 @@ def cases(tier, seed, shard, nshards):
         text, _ = grammar.document(r, opts)
         mode = i % 5
         if mode == 0:
+            if i % 2:
+                # @string definitions and fields that refer to them, bare and inside `#` concatenations (seed C03-m: the default
+                # stack replaced a resolved concatenation by a freshly built field without a start line)
+                from .c05 import with_refs
+                text = with_refs(r, text, None)
             yield {"k": "gen", "text": text}
         elif mode == 1:
             yield {"k": "prefix", "text": text[:r.randint(0, len(text))]}
